@@ -253,6 +253,8 @@ class Opaque:
     def __init__(self, what): self.what = what
     def __repr__(self): return "<%s>" % self.what
 class Panic(Exception): pass
+MIR_OPERATORS = {"PtrMetadata", "Len", "Cast", "ShallowInitBox", "CopyForDeref", "ThreadLocalRef", "SizeOf", "AlignOf", "Offset", "Shl", "Shr", "Div", "Rem", "BitXor", "Cmp",
+                 "AddUnchecked", "SubUnchecked", "MulUnchecked", "ShlUnchecked", "ShrUnchecked", "UbChecks", "ContractChecks", "OffsetOf"}
 class Unsupported(Exception): pass
 class Infeasible(Exception): pass
 
@@ -384,6 +386,11 @@ class Exec:
             m = re.match(r"^(-?\d+)_(usize|isize|i64|u64|i32|u32|u8|i8)$", c)
             if m: return int(m.group(1))
             if c in ("true", "false"): return c == "true"
+            mmm = re.match(r"^(?:core::|std::)?(i8|i16|i32|i64|isize|u8|u16|u32|u64|usize)::(MIN|MAX)$", c)
+            if mmm:
+                w = {"i8": 8, "i16": 16, "i32": 32, "i64": 64, "isize": 64, "u8": 8, "u16": 16, "u32": 32, "u64": 64, "usize": 64}[mmm.group(1)]
+                if mmm.group(1)[0] == "i": return -(2 ** (w - 1)) if mmm.group(2) == "MIN" else 2 ** (w - 1) - 1
+                return 0 if mmm.group(2) == "MIN" else 2 ** w - 1
             if re.match(r"^[A-Z]$", c) and self.cenv and c in self.cenv[-1]: return self.cenv[-1][c]
             if c == "()": return TupleV([])
             if c in ("RangeFull", "std::ops::RangeFull"): return StructV("RangeFull", [])
@@ -456,9 +463,27 @@ class Exec:
             f = {"Eq": lambda: a == b, "Ne": lambda: a != b, "Lt": lambda: a < b, "Le": lambda: a <= b,
                  "Gt": lambda: a > b, "Ge": lambda: a >= b, "Add": lambda: a + b, "Sub": lambda: a - b, "Mul": lambda: a * b, "BitOr": bor, "BitAnd": band}
             if op.endswith("WithOverflow"):
-                v = f[op[:3]](); lim = 2**64 - 1
-                return TupleV([v, (v < 0) if isinstance(v, int) is False else (v < 0 or v > lim)]) if not isinstance(v, int) else TupleV([v, v < 0 or v > lim])
+                v = f[op[:3]]()
+                # the range of the result type: `(i64, bool)` is signed, everything else here is usize / u64
+                mty = re.match(r"^\((i8|i16|i32|i64|isize|u8|u16|u32|u64|usize), bool\)$", getattr(self, "dest_type", None) or "")
+                ity = mty.group(1) if mty else "usize"
+                w = {"8": 8, "16": 16, "32": 32, "64": 64, "size": 64}[ity.lstrip("iu")]
+                lo, lim = (-(2 ** (w - 1)), 2 ** (w - 1) - 1) if ity[0] == "i" else (0, 2 ** w - 1)
+                if isinstance(v, int): return TupleV([v, v < lo or v > lim])
+                return TupleV([v, z3.Or(v < lo, v > lim)])
             return f[op]()
+        m = re.match(r"^PtrMetadata\((.*)\)$", r)
+        if m and self.balanced(m.group(1)):          # the length of the slice / str behind a (raw) reference
+            v = self.operand(m.group(1), fr)
+            while isinstance(v, Ref): v = v.get()
+            if isinstance(v, list): return len(v)
+            if isinstance(v, VecV): return len(v.items)
+            if isinstance(v, SliceRef): return v.n
+            if isinstance(v, str): return len(v.encode())
+            raise Unsupported("PtrMetadata of %r" % (type(v).__name__,))
+        m = re.match(r"^Neg\((.*)\)$", r)
+        if m and self.balanced(m.group(1)):
+            a = self.operand(m.group(1), fr); return -a
         m = re.match(r"^Not\((.*)\)$", r)
         if m:
             a = self.operand(m.group(1), fr); return (not a) if isinstance(a, bool) else z3.Not(a)
@@ -474,7 +499,11 @@ class Exec:
             return StructV("closure@" + mcl.group(1), [self.operand(v, fr) for k, v in kv])
         mcl = re.match(r"^\{closure@([^}]*)\}$", r)
         if mcl: return StructV("closure@" + mcl.group(1), [])
-        if r.startswith("&raw"): raise Unsupported(r)
+        mraw = re.match(r"^&raw (?:const|mut) (?:\(fake\) )?(.*)$", r)
+        if mraw:      # raw (and match-guard "fake") borrows: a reference to the place, like `&`
+            pl = mraw.group(1).strip()
+            if pl.startswith("(") and pl.endswith(")") and self.balanced(pl[1:-1]) and pl.startswith("(*"): pass
+            return self.parse_place(pl, fr)
         if r.startswith("&mut "): return self.parse_place(r[5:], fr)
         if r.startswith("&"): return self.parse_place(r[1:], fr)
         mfp = re.match(r"^([A-Za-z_][\w:<>', ]*?) as (.+) \(PointerCoercion\(ReifyFnPointer.*\)$", r)
@@ -509,6 +538,7 @@ class Exec:
             ty, idx = self.variant_index(path)
             return EnumV(ty, idx, list(vals.values()))
         m = re.match(r"^((?:\w+::)*[A-Z]\w*)\((.*)\)$", r)
+        if m and m.group(1) in MIR_OPERATORS: raise Unsupported("MIR operator " + r[:60])      # never read an operator as an enum constructor
         if m and self._is_tuple_struct_ctor(m.group(1)):
             return StructV(m.group(1).split("::")[-1], [self.operand(x, fr) for x in split_top(m.group(2))])
         if m and "::" not in m.group(1) and getattr(self, "dest_type", None):
